@@ -158,7 +158,7 @@ pub fn subjects(n: usize) -> Vec<Cfg> {
 pub fn run(ctx: &Ctx) -> CheckResult {
     let mut res = CheckResult::new(PROP, "exploration");
     let th = ctx.tier_thorough;
-    let set = [Regime::Extremes, Regime::Saw, Regime::Walk, Regime::Plateau, Regime::Spikes, Regime::Stair, Regime::ShortSaw, Regime::Tri4];
+    let set = [Regime::Extremes, Regime::Saw, Regime::Walk, Regime::Plateau, Regime::Spikes, Regime::Stair, Regime::ShortSaw, Regime::Tri4, Regime::Quiet];
     let (k, total, periods, bases): (usize, usize, Vec<usize>, Vec<f64>) = if th {
         (3, 2_000_000, vec![1, 2, 3, 5, 14, 50, 200, 1000], vec![1e-3, 0.7, 1.0, 1.1e6, 3e-7])
     } else {
@@ -253,7 +253,7 @@ pub fn run(ctx: &Ctx) -> CheckResult {
     }
     res.exhaustive = false;
     res.rule = "case = one long generated stream (period x band base x ordering of regime segments) fed to the real indicator without reset; at every 997th step, around every segment boundary and at the end the output is compared with a from-scratch double-double evaluation of the harness's own copy of the window at tolerance tau(t)*M (variances *M^2; CCI/MFI *c, gated); MIN/MAX exact; distinct by construction; non-trivial = applicable comparison".into();
-    res.bounds = format!("periods {periods:?} x band bases {bases:?} x all {}^{k} orderings of {{extremes, saw-tooth, LCG walk, plateau, spikes, stair (price rests every other step), short saw-tooth 1.1+(t mod 7)*123.456, exact triangle c,c+d,c,c-d}} (every 5th ordering for periods > 14 in thorough; O(n)-per-step subjects shortened), total length {total} per run; plus single-regime runs of 250k / 2M steps for periods 2 and 3; period 70000 on 150k / 300k steps (O(1)-per-step subjects); subjects SMA, WMA, SD, BB, MAD, CCI, MFI, MIN, MAX (every 4th ordering also through the bar path of the close-/low-/high-reading ones, periods <= 14)", set.len());
+    res.bounds = format!("periods {periods:?} x band bases {bases:?} x all {}^{k} orderings of {{extremes, saw-tooth, LCG walk, plateau, spikes, stair (price rests every other step), short saw-tooth 1.1+(t mod 7)*123.456, exact triangle c,c+d,c,c-d, quiet (ticks of 1e-5 around the band's lower end)}} (every 5th ordering for periods > 14 in thorough; O(n)-per-step subjects shortened), total length {total} per run; plus single-regime runs of 250k / 2M steps for periods 2 and 3; period 70000 on 150k / 300k steps (O(1)-per-step subjects); subjects SMA, WMA, SD, BB, MAD, CCI, MFI, MIN, MAX (every 4th ordering also through the bar path of the close-/low-/high-reading ones, periods <= 14)", set.len());
     res.assumptions = vec![
         "systematically enumerated family of long streams, not all streams: regime orderings, periods and scales are exhaustive, regime contents follow fixed generators (the LCG walk is seeded by VERIF_SEED)".into(),
     ];
